@@ -112,13 +112,21 @@ def gx_pattern(self, e, env):
                     and n.id in env:
                 raise Unsupported(f"pattern {tmpl_text}: the name {n.id} is a local here")
         ts = []
-        for k, ty in enumerate(tys, start=1):
-            if ty.startswith("NAME:"):
-                if not (isinstance(holes[k], ast.Name) and holes[k].id == ty[5:]):
-                    raise Unsupported(f"pattern {tmpl_text}: hole {k} is not the name {ty[5:]}")
-                ts.append("")
-                continue
-            ts.append(self.expr(holes[k], env, ty)[0])
+        try:
+            for k, ty in enumerate(tys, start=1):
+                if ty.startswith("NAME:"):
+                    if not (isinstance(holes[k], ast.Name) and holes[k].id == ty[5:]):
+                        raise Unsupported(f"pattern {tmpl_text}: hole {k} is not the name {ty[5:]}")
+                    ts.append("")
+                    continue
+                # the hole must have exactly the declared type (no coercion: `_1 is None` with a hole of
+                # an abstract type must not capture the same test on an Optional)
+                t, hty = self.expr0(holes[k], env, ty)
+                if hty != ty:
+                    raise Unsupported(f"pattern {tmpl_text}: hole {k} has type {hty}, not {ty}")
+                ts.append(t)
+        except Unsupported:
+            continue            # not this pattern: the other readings (or pysrc's Unsupported) apply
         return coq.format(*ts), ret
     return None
 
